@@ -72,6 +72,16 @@ type V2Case struct {
 	SnapOrder  string      `json:"snapshot_order,omitempty"` // pre | post
 	Continue   [][]V2Op    `json:"continue,omitempty"`       // history continued after close + reopen at the latest version
 	Reload     bool        `json:"reload"`                   // C20 part enabled
+	// Forced: versions whose commit is preceded by SetShouldCheckpoint() (a checkpoint the interval would not place)
+	Forced []int64 `json:"forced_checkpoints,omitempty"`
+	// ExportAt: the reloaded version whose node stream (Tree.Export, order ExportOrder) is written into a fresh database
+	// with WriteSnapshot and loaded back; the stream of EVERY reloaded version is compared with the reference traversal
+	ExportAt    int64  `json:"export_at,omitempty"`
+	ExportOrder string `json:"export_order,omitempty"` // pre | post
+	// RevertTo: after the reloads, a copy of the database directory is rolled back to this version (SqliteDb.Revert, the
+	// library's rollback tool), the version is loaded and the history is continued with RevertContinue
+	RevertTo       int64    `json:"revert_to,omitempty"`
+	RevertContinue [][]V2Op `json:"revert_continue,omitempty"`
 }
 
 type Violation struct {
@@ -136,11 +146,15 @@ func tmpBase() string {
 }
 
 // checkpoints of a history under interval ci, as v2 places them: version 1, then whenever version-last >= ci
-func checkpointsOf(n int, ci int64) map[int64]bool {
+func checkpointsOf(n int, ci int64, forced []int64) map[int64]bool {
 	cps := map[int64]bool{1: true}
 	last := int64(1)
+	fc := map[int64]bool{}
+	for _, f := range forced {
+		fc[f] = true
+	}
 	for v := int64(2); v <= int64(n); v++ {
-		if v-last >= ci {
+		if fc[v] || v-last >= ci {
 			cps[v] = true
 			last = v
 		}
@@ -154,6 +168,8 @@ type v2Stats struct {
 	reloads, replayedReloads, replayedWithRemoval         int
 	f14Skipped, queries, continued, snapshots, pruned     int
 	pruneNotFinished                                      int
+	workingQueries, forcedCheckpoints, exportsCompared    int
+	exportRoundTrips, reverted, revertContinued           int
 }
 
 type verModel struct {
@@ -177,17 +193,21 @@ func runV2(c V2Case) (v *Violation, st v2Stats) {
 	defer os.RemoveAll(dir)
 	lg := &exitLogger{prop: c.Prop, path: writeReplay(c.Prop, c, &Violation{Prop: c.Prop, Obs: "v2.logger_error", Msg: "the v2 background writer logged an error and exited the process"})}
 	pool := iavl2.NewNodePool()
-	open := func() (*iavl2.Tree, error) {
-		sql, err := iavl2.NewSqliteDb(pool, iavl2.SqliteDbOptions{Path: dir, ShardTrees: c.Shard, Logger: lg})
+	openAt := func(d string) (*iavl2.SqliteDb, *iavl2.Tree, error) {
+		sql, err := iavl2.NewSqliteDb(pool, iavl2.SqliteDbOptions{Path: d, ShardTrees: c.Shard, Logger: lg})
 		if err != nil {
-			return nil, err
+			return nil, nil, err
 		}
 		opts := iavl2.DefaultTreeOptions()
 		opts.CheckpointInterval = c.CI
 		opts.HeightFilter = c.HF
 		opts.EvictionDepth = c.ED
 		opts.CheckpointMemory = c.CM
-		return iavl2.NewTree(sql, pool, opts), nil
+		return sql, iavl2.NewTree(sql, pool, opts), nil
+	}
+	open := func() (*iavl2.Tree, error) {
+		_, t, err := openAt(dir)
+		return t, err
 	}
 	tr, err := open()
 	if err != nil {
@@ -317,7 +337,11 @@ func runV2(c V2Case) (v *Violation, st v2Stats) {
 		}
 		return nil
 	}
-	cps := checkpointsOf(len(c.Versions)+len(c.Continue), c.CI)
+	cps := checkpointsOf(len(c.Versions)+len(c.Continue), c.CI, c.Forced)
+	forced := map[int64]bool{}
+	for _, f := range c.Forced {
+		forced[f] = true
+	}
 	var latest int64
 	snapshotTaken := false
 	for vi, ops := range c.Versions {
@@ -332,6 +356,18 @@ func runV2(c V2Case) (v *Violation, st v2Stats) {
 		// before the commit: working state
 		if x := checkContents(tr, &verModel{wroot, work}, fmt.Sprintf("working state of version %d", ver), true); x != nil {
 			return x, st
+		}
+		if vi < len(c.Queries) {
+			for _, q := range c.Queries[vi] {
+				if x := runQuery(tr, &verModel{wroot, work}, q, fmt.Sprintf("working state of version %d", ver), true); x != nil {
+					return x, st
+				}
+				st.workingQueries++
+			}
+		}
+		if forced[ver] {
+			tr.SetShouldCheckpoint()
+			st.forcedCheckpoints++
 		}
 		h, nv, err := tr.SaveVersion()
 		if err != nil || nv != ver {
@@ -463,6 +499,27 @@ func runV2(c V2Case) (v *Violation, st v2Stats) {
 			_ = t2.Close()
 			return x, st
 		}
+		if m.root != nil { // (Tree.Export of an empty tree is not generated, like SaveSnapshot of one)
+			for _, ord := range []string{"pre", "post"} {
+				if x := compareExport(c, t2, m, ord, tag, values); x != nil {
+					_ = t2.Close()
+					return x, st
+				}
+				st.exportsCompared++
+			}
+			if c.ExportAt == target && values {
+				order := iavl2.PreOrder
+				if c.ExportOrder == "post" {
+					order = iavl2.PostOrder
+				}
+				ex := t2.Export(order)
+				if x := snapshotImportFrom(c, m, lg, target, c.ExportOrder, ex.Next, "stream of Tree.Export on the "+tag); x != nil {
+					_ = t2.Close()
+					return x, st
+				}
+				st.exportRoundTrips++
+			}
+		}
 		if target == latest && len(c.Continue) > 0 {
 			// continue the history from the reloaded latest version: same hashes as an uninterrupted run
 			wroot, work = m.root, copyKV(m.kv)
@@ -488,6 +545,11 @@ func runV2(c V2Case) (v *Violation, st v2Stats) {
 		}
 		if err := t2.Close(); err != nil {
 			return viol("close", "Close after reload: %v", err), st
+		}
+	}
+	if c.RevertTo >= keepFrom && c.RevertTo >= 1 && c.RevertTo <= latest && st.pruned == 0 && !snapshotTaken {
+		if x := revertAndContinue(c, dir, openAt, models, &st); x != nil {
+			return x, st
 		}
 	}
 	if snapshotTaken {
@@ -522,7 +584,42 @@ func runV2(c V2Case) (v *Violation, st v2Stats) {
 	return nil, st
 }
 
+// refStream: the reference traversal of a version (pre- or post-order) as snapshot nodes
+func refStream(m *verModel, order string) []*RNode {
+	var nodes []*RNode
+	if order == "post" {
+		rpost(m.root, func(n *RNode) { nodes = append(nodes, n) })
+		return nodes
+	}
+	var pre func(n *RNode)
+	pre = func(n *RNode) {
+		nodes = append(nodes, n)
+		if !n.leaf() {
+			pre(n.Left)
+			pre(n.Right)
+		}
+	}
+	pre(m.root)
+	return nodes
+}
+
 func snapshotImport(c V2Case, m *verModel, lg iavl2.Logger) *Violation {
+	nodes := refStream(m, c.SnapOrder)
+	i := 0
+	next := func() (*iavl2.SnapshotNode, error) {
+		if i >= len(nodes) {
+			return nil, nil
+		}
+		n := nodes[i]
+		i++
+		return &iavl2.SnapshotNode{Key: n.Key, Value: n.Value, Version: n.Version, Height: n.Height}, nil
+	}
+	return snapshotImportFrom(c, m, lg, c.SnapshotAt, c.SnapOrder, next, fmt.Sprintf("reference stream of %d nodes", len(nodes)))
+}
+
+// snapshotImportFrom writes a node stream into a fresh database (WriteSnapshot), loads it (LoadSnapshot) and compares
+// hash, contents and size with the model of that version
+func snapshotImportFrom(c V2Case, m *verModel, lg iavl2.Logger, version int64, ord string, next func() (*iavl2.SnapshotNode, error), what string) *Violation {
 	viol := func(obs, f string, a ...any) *Violation {
 		return &Violation{Prop: c.Prop, Obs: obs, Msg: fmt.Sprintf(f, a...)}
 	}
@@ -536,53 +633,209 @@ func snapshotImport(c V2Case, m *verModel, lg iavl2.Logger) *Violation {
 	if err != nil {
 		return viol("harness", "%v", err)
 	}
-	var nodes []*RNode
 	order := iavl2.PreOrder
-	if c.SnapOrder == "post" {
+	if ord == "post" {
 		order = iavl2.PostOrder
-		rpost(m.root, func(n *RNode) { nodes = append(nodes, n) })
-	} else {
-		var pre func(n *RNode)
-		pre = func(n *RNode) {
-			nodes = append(nodes, n)
-			if !n.leaf() {
-				pre(n.Left)
-				pre(n.Right)
-			}
-		}
-		pre(m.root)
 	}
-	i := 0
-	next := func() (*iavl2.SnapshotNode, error) {
-		if i >= len(nodes) {
-			return nil, nil
-		}
-		n := nodes[i]
-		i++
-		return &iavl2.SnapshotNode{Key: n.Key, Value: n.Value, Version: n.Version, Height: n.Height}, nil
-	}
-	if _, err := sql.WriteSnapshot(context.Background(), c.SnapshotAt, next, iavl2.SnapshotOptions{StoreLeafValues: true, WriteCheckpoint: true, TraverseOrder: order}); err != nil {
+	if _, err := sql.WriteSnapshot(context.Background(), version, next, iavl2.SnapshotOptions{StoreLeafValues: true, WriteCheckpoint: true, TraverseOrder: order}); err != nil {
 		_ = sql.Close()
-		return viol("snapshot.write", "WriteSnapshot(%d, %s-order stream of %d nodes): %v", c.SnapshotAt, c.SnapOrder, len(nodes), err)
+		return viol("snapshot.write", "WriteSnapshot(%d, %s-order, %s): %v", version, ord, what, err)
 	}
 	opts := iavl2.DefaultTreeOptions()
 	opts.CheckpointInterval, opts.HeightFilter, opts.EvictionDepth = c.CI, c.HF, c.ED
 	t := iavl2.NewTree(sql, pool, opts)
 	defer t.Close()
-	if err := t.LoadSnapshot(c.SnapshotAt, order); err != nil {
-		return viol("snapshot.import", "LoadSnapshot(%d,%s) of an ingested snapshot: %v", c.SnapshotAt, c.SnapOrder, err)
+	if err := t.LoadSnapshot(version, order); err != nil {
+		return viol("snapshot.import", "LoadSnapshot(%d,%s) of an ingested snapshot: %v", version, ord, err)
 	}
 	if h := t.Hash(); !bytes.Equal(h, m.root.hashOrEmpty()) {
-		return viol("snapshot.import_hash", "ingested %s-order snapshot of version %d: hash %x want %x", c.SnapOrder, c.SnapshotAt, h, m.root.hashOrEmpty())
+		return viol("snapshot.import_hash", "ingested %s-order snapshot of version %d: hash %x want %x", ord, version, h, m.root.hashOrEmpty())
 	}
 	for _, e := range sortedKVs(m.kv) {
 		g, err := t.Get(e.K)
 		if err != nil || !bytes.Equal(g, e.V) {
-			return viol("snapshot.import_get", "ingested %s-order snapshot of version %d: Get(%q)=%q,%v want %q", c.SnapOrder, c.SnapshotAt, e.K, g, err, e.V)
+			return viol("snapshot.import_get", "ingested %s-order snapshot of version %d: Get(%q)=%q,%v want %q", ord, version, e.K, g, err, e.V)
 		}
 	}
 	if t.Size() != rsize(m.root) {
 		return viol("snapshot.import_size", "ingested snapshot Size=%d want %d", t.Size(), rsize(m.root))
+	}
+	return nil
+}
+
+
+// compareExport: the node stream of Tree.Export equals the reference traversal (key, leaf value, node version, height)
+func compareExport(c V2Case, t *iavl2.Tree, m *verModel, ord, tag string, values bool) *Violation {
+	viol := func(obs, f string, a ...any) *Violation {
+		return &Violation{Prop: c.Prop, Obs: obs, Msg: fmt.Sprintf(f, a...)}
+	}
+	order := iavl2.PreOrder
+	if ord == "post" {
+		order = iavl2.PostOrder
+	}
+	want := refStream(m, ord)
+	ex := t.Export(order)
+	i := 0
+	for {
+		n, err := ex.Next()
+		if err == iavl2.ErrorExportDone || (err == nil && n == nil) {
+			break
+		}
+		if err != nil {
+			return viol("export.error", "%s: %s-order Export: %v after %d nodes", tag, ord, err, i)
+		}
+		if i >= len(want) {
+			return viol("export.stream", "%s: %s-order Export yields more than the %d nodes of the reference traversal (extra: key %q version %d height %d)", tag, ord, len(want), n.Key, n.Version, n.Height)
+		}
+		w := want[i]
+		if !bytes.Equal(n.Key, w.Key) || n.Version != w.Version || n.Height != w.Height || (values && w.leaf() && !bytes.Equal(n.Value, w.Value)) {
+			return viol("export.stream", "%s: %s-order Export node %d = (key %q value %q version %d height %d), reference (key %q value %q version %d height %d)", tag, ord, i, n.Key, n.Value, n.Version, n.Height, w.Key, w.Value, w.Version, w.Height)
+		}
+		i++
+	}
+	if i != len(want) {
+		return viol("export.stream", "%s: %s-order Export ended after %d of %d nodes", tag, ord, i, len(want))
+	}
+	return nil
+}
+
+func copyDir(src, dst string) error {
+	ents, err := os.ReadDir(src)
+	if err != nil {
+		return err
+	}
+	for _, e := range ents {
+		if e.IsDir() {
+			continue
+		}
+		b, err := os.ReadFile(filepath.Join(src, e.Name()))
+		if err != nil {
+			return err
+		}
+		if err := os.WriteFile(filepath.Join(dst, e.Name()), b, 0o644); err != nil {
+			return err
+		}
+	}
+	return nil
+}
+
+// revertAndContinue: a copy of the closed database is rolled back to c.RevertTo with the library's rollback primitive
+// (SqliteDb.Revert, what cmd/rollback does), that version is loaded and the history continues with other writes: the
+// hashes must be those of a run that never had the later versions (the model is forked at RevertTo), and every version
+// of the new history must reload after close + reopen.
+func revertAndContinue(c V2Case, dir string, openAt func(string) (*iavl2.SqliteDb, *iavl2.Tree, error), models map[int64]*verModel, st *v2Stats) *Violation {
+	viol := func(obs, f string, a ...any) *Violation {
+		return &Violation{Prop: c.Prop, Obs: obs, Msg: fmt.Sprintf(f, a...)}
+	}
+	dir2, err := os.MkdirTemp(tmpBase(), "verif-v2rev-")
+	if err != nil {
+		return viol("harness", "%v", err)
+	}
+	defer os.RemoveAll(dir2)
+	if err := copyDir(dir, dir2); err != nil {
+		return viol("harness", "copy: %v", err)
+	}
+	// as cmd/rollback does it: a bare SqliteDb (no tree, no writer goroutines), Revert, Close
+	rsql, err := iavl2.NewSqliteDb(iavl2.NewNodePool(), iavl2.SqliteDbOptions{Path: dir2, ShardTrees: c.Shard})
+	if err != nil {
+		return viol("reopen", "reopen of the copy: %v", err)
+	}
+	if err := rsql.Revert(int(c.RevertTo)); err != nil {
+		_ = rsql.Close()
+		return viol("revert", "Revert(%d): %v", c.RevertTo, err)
+	}
+	if err := rsql.Close(); err != nil {
+		return viol("revert", "Close after Revert(%d): %v", c.RevertTo, err)
+	}
+	_, t, err := openAt(dir2)
+	if err != nil {
+		return viol("reopen", "reopen of the reverted copy: %v", err)
+	}
+	closed := false
+	defer func() {
+		if !closed {
+			_ = t.Close()
+		}
+	}()
+	if err := t.LoadVersion(c.RevertTo); err != nil {
+		return viol("revert.load", "LoadVersion(%d) after Revert(%d): %v", c.RevertTo, c.RevertTo, err)
+	}
+	m := models[c.RevertTo]
+	if h := t.Hash(); !bytes.Equal(h, m.root.hashOrEmpty()) || t.Version() != c.RevertTo {
+		return viol("revert.hash", "after Revert(%d)+LoadVersion: version %d hash %x want %x", c.RevertTo, t.Version(), h, m.root.hashOrEmpty())
+	}
+	st.reverted++
+	wroot, work := m.root, copyKV(m.kv)
+	newModels := map[int64]*verModel{}
+	ver := c.RevertTo
+	for _, ops := range c.RevertContinue {
+		ver++
+		for _, o := range ops {
+			if o.Del {
+				if _, _, err := t.Remove(o.K); err != nil {
+					return viol("revert.remove", "Remove(%q): %v", o.K, err)
+				}
+				if _, had := work[string(o.K)]; had {
+					wroot, _, _, _ = rremove(wroot, o.K)
+					delete(work, string(o.K))
+				}
+			} else {
+				val := o.V
+				if val == nil {
+					val = []byte{}
+				}
+				if _, err := t.Set(o.K, val); err != nil {
+					return viol("revert.set", "Set(%q): %v", o.K, err)
+				}
+				wroot, _ = rset(wroot, o.K, val)
+				work[string(o.K)] = val
+			}
+		}
+		h, nv, err := t.SaveVersion()
+		want := rhash(wroot, ver, true)
+		if err != nil || nv != ver || !bytes.Equal(h, want) {
+			return viol("revert.continue_hash", "after Revert(%d): SaveVersion=%d,%x,%v want %d,%x", c.RevertTo, nv, h, err, ver, want)
+		}
+		newModels[ver] = &verModel{wroot, copyKV(work)}
+		for _, e := range sortedKVs(work) {
+			g, err := t.Get(e.K)
+			if err != nil || !bytes.Equal(g, e.V) {
+				return viol("revert.continue_get", "after Revert(%d), version %d: Get(%q)=%q,%v want %q", c.RevertTo, ver, e.K, g, err, e.V)
+			}
+		}
+		st.revertContinued++
+	}
+	if err := t.Close(); err != nil {
+		return viol("close", "Close after revert: %v", err)
+	}
+	closed = true
+	for v := c.RevertTo; v <= ver; v++ {
+		mm := newModels[v]
+		if v == c.RevertTo {
+			mm = m
+		}
+		_, t2, err := openAt(dir2)
+		if err != nil {
+			return viol("reopen", "reopen after revert: %v", err)
+		}
+		if err := t2.LoadVersion(v); err != nil {
+			_ = t2.Close()
+			return viol("revert.reload", "history reverted to %d and continued to %d: LoadVersion(%d): %v", c.RevertTo, ver, v, err)
+		}
+		if h := t2.Hash(); !bytes.Equal(h, mm.root.hashOrEmpty()) {
+			_ = t2.Close()
+			return viol("revert.reload_hash", "history reverted to %d and continued to %d: LoadVersion(%d) hash %x want %x", c.RevertTo, ver, v, h, mm.root.hashOrEmpty())
+		}
+		for _, e := range sortedKVs(mm.kv) {
+			g, err := t2.Get(e.K)
+			if err != nil || !bytes.Equal(g, e.V) {
+				_ = t2.Close()
+				return viol("revert.reload_get", "history reverted to %d and continued to %d: version %d Get(%q)=%q,%v want %q", c.RevertTo, ver, v, e.K, g, err, e.V)
+			}
+		}
+		if err := t2.Close(); err != nil {
+			return viol("close", "Close: %v", err)
+		}
 	}
 	return nil
 }
@@ -632,6 +885,11 @@ func genKey(t *rapid.T, existing map[string][]byte) []byte {
 	case c < 9 && len(existing) > 0:
 		return []byte(rapid.SampledFrom(sortedKeys(existing)).Draw(t, "ke"))
 	default:
+		if rapid.IntRange(0, 5).Draw(t, "klong") == 0 {
+			// length-boundary keys (varint length prefixes of 1 and 2 bytes)
+			n := rapid.SampledFrom([]int{127, 128, 129, 300}).Draw(t, "klen")
+			return append(bytes.Repeat([]byte{'L'}, n-1), byte('a'+rapid.IntRange(0, 2).Draw(t, "klast")))
+		}
 		return []byte(fmt.Sprintf("k%03d", rapid.IntRange(0, 60).Draw(t, "kn")))
 	}
 }
@@ -677,6 +935,9 @@ func genVersionOps(t *rapid.T, work map[string][]byte, sorted bool, label string
 			ops = append(ops, V2Op{Del: true, K: k})
 		} else {
 			val := rapid.SliceOfN(rapid.Byte(), 0, 3).Draw(t, label+"v")
+			if rapid.IntRange(0, 11).Draw(t, label+"vlong") == 0 {
+				val = bytes.Repeat([]byte{byte(rapid.IntRange(0, 255).Draw(t, label+"vb"))}, rapid.SampledFrom([]int{127, 128, 200, 5000}).Draw(t, label+"vlen"))
+			}
 			if present && rapid.IntRange(0, 4).Draw(t, label+"same") == 0 {
 				val = work[string(k)] // rewrite of the identical value
 			}
@@ -734,6 +995,23 @@ func genV2Case(t *rapid.T, prop string, reload bool) V2Case {
 	if !reload {
 		c.CM = rapid.SampledFrom([]uint64{0, 0, 0, 1, 300, 3000}).Draw(t, "cm")
 	}
+	genForced := func() {
+		if c.CM == 0 && nver >= 2 && rapid.IntRange(0, 2).Draw(t, "doForce") == 0 {
+			nf := rapid.IntRange(1, 2).Draw(t, "nforce")
+			seen := map[int64]bool{}
+			for i := 0; i < nf; i++ {
+				f := rapid.Int64Range(2, int64(nver)).Draw(t, "force")
+				if !seen[f] {
+					seen[f] = true
+					c.Forced = append(c.Forced, f)
+				}
+			}
+			sort.Slice(c.Forced, func(i, j int) bool { return c.Forced[i] < c.Forced[j] })
+		}
+	}
+	if !reload {
+		genForced()
+	}
 	if reload {
 		if nver >= 3 && rapid.IntRange(0, 2).Draw(t, "doPrune") == 0 {
 			c.PruneAfter = rapid.IntRange(2, nver).Draw(t, "pruneAfter")
@@ -752,9 +1030,34 @@ func genV2Case(t *rapid.T, prop string, reload bool) V2Case {
 		if c.PruneAfter == 0 {
 			c.CM = rapid.SampledFrom([]uint64{0, 0, 0, 1, 300, 3000}).Draw(t, "cm")
 		}
+		genForced()
+		if rapid.IntRange(0, 2).Draw(t, "doExport") == 0 {
+			c.ExportAt = rapid.Int64Range(1, int64(nver)).Draw(t, "exportAt")
+			c.ExportOrder = rapid.SampledFrom([]string{"pre", "post"}).Draw(t, "exportOrder")
+		}
 		nc := rapid.IntRange(0, 3).Draw(t, "ncont")
 		for i := 0; i < nc; i++ {
 			c.Continue = append(c.Continue, genVersionOps(t, work, sorted, "c"))
+		}
+		if c.PruneAfter == 0 && c.SnapshotAt == 0 && rapid.IntRange(0, 2).Draw(t, "doRevert") == 0 {
+			// roll a copy of the database back to an older (or the latest) version and continue with other writes
+			c.RevertTo = rapid.Int64Range(1, int64(nver)).Draw(t, "revertTo")
+			rwork := map[string][]byte{}
+			for _, ops := range c.Versions[:c.RevertTo] {
+				for _, o := range ops {
+					if o.Del {
+						delete(rwork, string(o.K))
+					} else if o.V == nil {
+						rwork[string(o.K)] = []byte{}
+					} else {
+						rwork[string(o.K)] = o.V
+					}
+				}
+			}
+			nr := rapid.IntRange(1, 4).Draw(t, "nrevcont")
+			for i := 0; i < nr; i++ {
+				c.RevertContinue = append(c.RevertContinue, genVersionOps(t, rwork, sorted, "r"))
+			}
 		}
 	}
 	return c
@@ -777,8 +1080,10 @@ func TestC19(t *testing.T) {
 			report(rt, "C19", c, v)
 		}
 		Count("C19", "iterator_queries", st.queries)
+		Count("C19", "iterator_queries_on_working_state", st.workingQueries)
+		Count("C19", "forced_checkpoints", st.forcedCheckpoints)
 		RecordCase("C19", c, c.CM == 0 && st.checkpoints >= 1 && st.nonCheckpointCommits >= 1 && st.removals >= 1 && st.rotations >= 1,
-			map[string]bool{"checkpoint_memory": c.CM > 0, "shard": c.Shard, fmt.Sprintf("ci_%d", c.CI): true, fmt.Sprintf("hf_%d", c.HF): true, fmt.Sprintf("ed_%d", c.ED): true, "rotations": st.rotations > 0, "removals": st.removals > 0})
+			map[string]bool{"checkpoint_memory": c.CM > 0, "shard": c.Shard, fmt.Sprintf("ci_%d", c.CI): true, fmt.Sprintf("hf_%d", c.HF): true, fmt.Sprintf("ed_%d", c.ED): true, "rotations": st.rotations > 0, "removals": st.removals > 0, "forced_checkpoint": st.forcedCheckpoints > 0})
 	})
 }
 
@@ -795,10 +1100,16 @@ func TestC20(t *testing.T) {
 		Count("C20", "continued_versions", st.continued)
 		Count("C20", "snapshots_loaded", st.snapshots)
 		Count("C20", "prunes", st.pruned)
+		Count("C20", "forced_checkpoints", st.forcedCheckpoints)
+		Count("C20", "export_streams_compared", st.exportsCompared)
+		Count("C20", "export_write_load_round_trips", st.exportRoundTrips)
+		Count("C20", "reverted_copies", st.reverted)
+		Count("C20", "versions_committed_after_revert", st.revertContinued)
 		Count("C20", "reloads_with_checkpoint_memory_option", st.reloadsUnknownCheckpoint)
 		Count("C20", "prune_not_finished_in_20s_case_not_reloaded", st.pruneNotFinished)
 		RecordCase("C20", c, st.replayedWithRemoval >= 1,
-			map[string]bool{"shard": c.Shard, fmt.Sprintf("ci_%d", c.CI): true, "pruned": st.pruned > 0, "snapshot": st.snapshots > 0, "continued": st.continued > 0, "replayed_reload": st.replayedReloads > 0})
+			map[string]bool{"shard": c.Shard, fmt.Sprintf("ci_%d", c.CI): true, "pruned": st.pruned > 0, "snapshot": st.snapshots > 0, "continued": st.continued > 0, "replayed_reload": st.replayedReloads > 0,
+				"forced_checkpoint": st.forcedCheckpoints > 0, "export_round_trip": st.exportRoundTrips > 0, "reverted": st.reverted > 0, "reverted_to_older": st.reverted > 0 && c.RevertTo < int64(len(c.Versions))})
 	})
 }
 
